@@ -40,6 +40,28 @@ def _pass_roll(vals):
     return rp.roll
 
 
+def _get(obj, m):
+    for part in m.split('.'):
+        obj = getattr(obj, part)
+    return obj
+
+
+def _pass3(vals):
+    from pyroll.core import ThreeRollPass, Roll, CircularOvalGroove
+    return ThreeRollPass(label="p3", roll=Roll(groove=CircularOvalGroove(depth=8e-3, r1=6e-3, r2=40e-3, pad_angle=30), nominal_radius=0.16),
+                         gap=2e-3, **vals)
+
+
+def _pass_with_roll(neutral_point):
+    def f(vals):
+        from pyroll.core import RollPass, Roll, CircularOvalGroove
+        rk = {k.split('.', 1)[1]: v for k, v in vals.items() if k.startswith('roll.')}
+        pk = {k: v for k, v in vals.items() if not k.startswith('roll.')}
+        return RollPass(label="p", roll=Roll(groove=CircularOvalGroove(depth=8e-3, r1=6e-3, r2=40e-3), nominal_radius=0.16,
+                                             neutral_point=neutral_point, **rk), gap=2e-3, **pk)
+    return f
+
+
 def groups(rng):
     """(name, factory, members, consistent base values, sufficient(S) -> bool)"""
     v, d = rng.uniform(0.5, 5), rng.uniform(0.5, 5)
@@ -54,9 +76,11 @@ def groups(rng):
     out.append(('roll radius/diameter', _roll, ['nominal_radius', 'nominal_diameter'],
                 {'nominal_radius': r, 'nominal_diameter': 2 * r}, lambda S: len(S) >= 1))
     gf = _roll({'nominal_radius': r}).groove.groove_factor if hasattr(_roll({'nominal_radius': r}).groove, 'groove_factor') else 0
-    out.append(('roll frequency/surface velocity', lambda vals: _roll(dict(vals, nominal_radius=r)),
-                ['rotational_frequency', 'surface_velocity'],
-                {'rotational_frequency': f, 'surface_velocity': f * r * 2 * math.pi}, lambda S: len(S) >= 1))
+    wr0 = _roll({'nominal_radius': r}).working_radius
+    out.append(('roll frequency/surface velocity/working velocity', lambda vals: _roll(dict(vals, nominal_radius=r)),
+                ['rotational_frequency', 'surface_velocity', 'working_velocity'],
+                {'rotational_frequency': f, 'surface_velocity': f * r * 2 * math.pi, 'working_velocity': f * wr0 * 2 * math.pi},
+                lambda S: len(S) >= 1))
     out.append(('cooling pipe radius/area', _pipe, ['inner_radius', 'cross_section_area'],
                 {'inner_radius': ri, 'cross_section_area': ri ** 2 * math.pi}, lambda S: len(S) >= 1))
     rp = _pass({})
@@ -68,6 +92,21 @@ def groups(rng):
     cfr = rng.uniform(0.7, 1.0)
     out.append(('pass target area/area filling ratio', _pass, ['target_cross_section_area', 'target_cross_section_filling_ratio'],
                 {'target_cross_section_area': cfr * ua, 'target_cross_section_filling_ratio': cfr}, None))
+    rp3 = _pass3({})
+    uw3 = rp3.usable_width
+    out.append(('three-roll pass target width/filling ratio', _pass3, ['target_width', 'target_filling_ratio'],
+                {'target_width': fr * uw3, 'target_filling_ratio': fr}, lambda S: True))
+    # pass velocity <-> roll working velocity <-> rotational frequency <-> surface velocity, neutral point supplied
+    proto = _pass_with_roll(-0.02)({})
+    wrp, Rp = proto.roll.working_radius, proto.roll.nominal_radius
+    nap = math.asin(-0.02 / wrp)
+    fp = rng.uniform(0.5, 3)
+    wvp = fp * wrp * 2 * math.pi
+    out.append(('pass velocity / roll velocities (neutral point given)', _pass_with_roll(-0.02),
+                ['velocity', 'roll.working_velocity', 'roll.rotational_frequency', 'roll.surface_velocity', 'roll.neutral_angle'],
+                {'velocity': wvp * math.cos(nap), 'roll.working_velocity': wvp, 'roll.rotational_frequency': fp,
+                 'roll.surface_velocity': fp * Rp * 2 * math.pi, 'roll.neutral_angle': nap},
+                'single-velocity'))
     wr = _pass_roll({}).working_radius
     na = -rng.uniform(0.01, 0.1)
     out.append(('pass roll neutral point/angle', _pass_roll, ['neutral_point', 'neutral_angle'],
@@ -77,15 +116,19 @@ def groups(rng):
 
 def run_group(chk, g, seen):
     name, factory, members, base, sufficient = g
-    for k in range(len(members) + 1):
-        for S in itertools.combinations(members, k):
+    subsets = [S for k in range(len(members) + 1) for S in itertools.combinations(members, k)]
+    if sufficient == 'single-velocity':
+        subsets = [(m,) for m in members if m != 'roll.neutral_angle']
+        sufficient = lambda S: True
+    for S in subsets:
+        if True:
             for order in itertools.permutations(members):
                 obj = factory({m: base[m] for m in S})
                 res = {}
                 for m in order:
                     t0 = time.time()
                     try:
-                        res[m] = ('ok', float(getattr(obj, m)))
+                        res[m] = ('ok', float(_get(obj, m)))
                     except AttributeError:
                         res[m] = ('attr',)
                     except RecursionError:
@@ -123,7 +166,7 @@ def run_group(chk, g, seen):
                     obj2 = factory({m: val})
                     for m2 in S:
                         try:
-                            back = float(getattr(obj2, m2))
+                            back = float(_get(obj2, m2))
                         except AttributeError:
                             continue
                         if len(members) == 2 and not math.isclose(back, base[m2], rel_tol=1e-9, abs_tol=1e-15) and \
@@ -147,7 +190,7 @@ def run(chk):
     chk.cov['distinct_nontrivial'] += len(seen)
     chk.cov['exhaustive'] = True
     chk.sample({'group': 'transport length/duration (velocity given)', 'supplied': ['length'], 'order': ['duration', 'length']})
-    chk.cov['rule'] = ("for each of 8 groups of mutually defined hooks: every subset of members supplied explicitly (consistent positive random "
+    chk.cov['rule'] = ("for each of 10 groups of mutually defined hooks: every subset of members supplied explicitly (consistent positive random "
                        "values) x every read order of all members, on fresh real objects; outcome class, wall time of each read, value against "
                        "the consistent base, round trip through a fresh object; distinct = (group, subset, order)")
     chk.assumptions += ["floats abstracted to R in the theorems; asin/sin round trip needs the stated angle range",
